@@ -26,7 +26,7 @@ RULE = ("plans = forest x peer schedules x batching x locks x callbacks x set-sl
         "a waiting subtree) or a delivery of a new header after a lock")
 FAULT_KINDS = ["duplicate", "duplicate_of_locked", "duplicate_in_batch", "child_before_parent",
                "orphan_never_resolved", "reordered_batch", "partition_heal_burst", "fork_below_lock",
-               "empty_batch", "retransmit", "stale_branch_after_lock"]
+               "empty_batch", "retransmit", "stale_branch_after_lock", "crash_restart"]
 PROBES = ["reorg", "deep_reorg>=3", "tie", "orphan_adopted", "adopt_parent_and_sibling_same_batch",
           "lock", "lock_full_length", "lock_noop", "delivery_after_lock", "callback_delivered",
           "callback_dropped", "two_instances", "slot_collision", "weight_zero_header", "lock_raised"]
@@ -191,6 +191,8 @@ def gen_plan(rng, tier, index, config=None):
     p_lock = r.pick([0.0, 0.0, 0.1, 0.3])
     p_query = r.pick([0.0, 0.2, 0.5])
     p_shuffle_batch = r.pick([0.0, 0.3, 1.0])
+    p_restart = r.pick([0.0, 0.0, 0.05, 0.15]) if p_lock > 0 else 0.0
+    sent = []
     bcs = ["bc0"] + (["bc1"] if config == "A2-two-instances" else [])
     steps = []
     for b in bcs:
@@ -220,6 +222,16 @@ def gen_plan(rng, tier, index, config=None):
         hs = [[lab, info[lab][0], info[lab][1]] for lab, _ in batch]
         tags = sorted({tg for _, tgs in batch for tg in tgs})
         steps.append({"op": "deliver", "bc": bc, "batch": hs, "t": round(t, 6), "tags": tags})
+        sent.extend(h for h in hs if h not in sent)
+        if r.chance(p_restart):
+            # the process dies; only what did_lock_to_index_f persisted survives; peers send their headers again
+            steps.append({"op": "restart", "bc": bc})
+            if r.chance(0.7):
+                again = list(sent)
+                if r.chance(0.5):
+                    r.shuffle(again)
+                k = r.between(1, len(again))
+                steps.append({"op": "deliver", "bc": bc, "batch": again[:k], "t": round(t, 6), "tags": ["resync_after_restart"]})
         if r.chance(0.03):
             steps.append({"op": "deliver", "bc": bc, "batch": [], "t": round(t, 6), "tags": []})
         while r.chance(p_query):
@@ -283,6 +295,13 @@ class _Inst(object):
         self.pending_lock_issue = None
         self.locked_since_delivery = False
         self.waiting_tops = {}
+        self.durable = []          # what did_lock_to_index_f handed to the (simulated) disk
+        self.persist_calls = 0
+
+    def persist(self, items, old_length):
+        self.persist_calls += 1
+        del self.durable[old_length:]
+        self.durable.extend(items)
 
 
 def _reset_process_globals():
@@ -382,10 +401,11 @@ def execute(plan, ctx):
         op = st.get("op")
         if op == "new":
             inst = _Inst()
+            inst.shared = bool(st.get("shared"))
             if st.get("shared"):
-                inst.sut = BlockChain(ids.id_of(anchor_label))
+                inst.sut = BlockChain(ids.id_of(anchor_label), did_lock_to_index_f=inst.persist)
             else:
-                inst.sut = BlockChain(ids.id_of(anchor_label), unlocked_block_storage={})
+                inst.sut = BlockChain(ids.id_of(anchor_label), unlocked_block_storage={}, did_lock_to_index_f=inst.persist)
             inst.model = ChainModel(anchor_label)
             insts[st["bc"]] = inst
             if len(insts) == 2:
@@ -416,6 +436,8 @@ def execute(plan, ctx):
             _deliver(ctx, ids, inst, st)
         elif op == "lock":
             _lock(ctx, ids, inst, st)
+        elif op == "restart":
+            _restart(ctx, ids, inst, st, anchor_label)
         elif op == "query":
             _query(ctx, ids, inst, st)
 
@@ -663,6 +685,52 @@ def _lock(ctx, ids, inst, st):
         model.lock(locked)
 
 
+def _restart(ctx, ids, inst, st, anchor_label):
+    """crash + restart: a new tracker is built from the durable locked prefix only"""
+    from pycoin.blockchain.BlockChain import BlockChain
+    if inst.pending_lock_issue is not None:
+        return  # a lock already went wrong; the next delivery reports it
+    model = inst.model
+    durable = list(inst.durable)
+    ctx.fault("crash_restart")
+    ctx.nontrivial = True
+    try:
+        if inst.shared:
+            sut = BlockChain(ids.id_of(anchor_label), did_lock_to_index_f=inst.persist)
+        else:
+            sut = BlockChain(ids.id_of(anchor_label), unlocked_block_storage={}, did_lock_to_index_f=inst.persist)
+        sut.preload_locked_blocks([SimHeader(h, p, w) if isinstance(h, SimHash) else _Tup(h, p, w) for (h, p, w) in durable])
+    except Exception as e:
+        ctx.violate("C15", "restart-raised", {"exc": type(e).__name__, "msg": str(e)[:200]})
+        raise Abort()
+    got = [ids.label(t[0]) for t in durable]
+    if got != model.locked:
+        ctx.violate("C15", "durable-locked-prefix-differs", {"durable": got[-4:], "locked": model.locked[-4:],
+                                                             "len": [len(got), len(model.locked)]})
+        raise Abort()
+    inst.sut = sut
+    # everything that was not locked is gone
+    keep = set(model.locked)
+    model.delivered = {k: v for k, v in model.delivered.items() if k in keep}
+    model.children = {}
+    for lab in model.locked:
+        model.children.setdefault(model.delivered[lab][0], []).append(lab)
+    inst.L = list(model.locked)
+    inst.cbs = {}
+    inst.locked_since_delivery = bool(model.locked)
+    ctx.obs("restart", st["bc"], len(durable))
+
+
+class _Tup(object):
+    """header rebuilt from a persisted (hash, parent, weight) tuple (configuration B: real 32-byte ids)"""
+
+    def __init__(self, h, p, w):
+        self._h, self.previous_block_hash, self.difficulty = h, p, w
+
+    def hash(self):
+        return self._h
+
+
 def _query(ctx, ids, inst, st):
     sut = inst.sut
     kind, arg = st["kind"], st.get("arg")
@@ -772,6 +840,8 @@ def _rename(plan):
             out.append(["d", st.get("bc"), [[nm(l), nm(p), w] for l, p, w in st["batch"]]])
         elif op == "lock":
             out.append(["l", st.get("bc"), st.get("back"), st.get("index")])
+        elif op == "restart":
+            out.append(["r", st.get("bc")])
         elif op == "query":
             a = st.get("arg")
             out.append(["q", st.get("kind"), nm(a) if isinstance(a, str) else a])
@@ -805,6 +875,8 @@ def fingerprint(plan, v):
             shape.append("d(" + ",".join("%s<-%s" % (l, p) for l, p, w in st[2]) + ")")
         elif st[0] == "l":
             shape.append("lock")
+        elif st[0] == "r":
+            shape.append("restart")
         elif st[0] == "q":
             shape.append("q:" + st[1])
         else:
